@@ -5,9 +5,15 @@ Events (logged after the wrapped call returned unless stated):
   call(op, n)                                at the start of sample / warmup
   sweep_begin                                at the start of step()
   set_target(others={name: vid})             the keyword values ACTUALLY passed to joint._condition by the Gibbs sampler
-  block_step(block, start, pid, cache_ok)    one transition of the block's sampler; cache_ok evaluated BEFORE the transition:
-                                             cached log-density / gradient / likelihood equal a fresh evaluation at the
+  block_step(block, start, pid, cache_ok, tgt_ok)
+                                             one transition of the block's sampler; both flags evaluated BEFORE the transition.
+                                             cache_ok: cached log-density / gradient / likelihood equal a fresh evaluation at the
                                              sampler's current point under the sampler's CURRENT target
+                                             tgt_ok: the target the block's sampler HOLDS has, between the sampler's point and a
+                                             second point, the same log-density difference as the Gibbs sampler's own joint
+                                             conditioned afresh on the current values of all other blocks (the conditioning
+                                             call alone does not show that its result was handed to the sampler that makes
+                                             the transition; additive constants play no role)
   sweep_end(vals)                            current_samples after the sweep
   store(vals)                                the tuple appended to the stored samples
 """
@@ -53,6 +59,35 @@ def cache_ok(s):
     return bool(ok)
 
 
+def target_ok(rec, g, block, held_target, pt, current):
+    """held_target and g.target(**{other: current[other]}) have the same log-density difference between pt and a second
+    point; True when that cannot be evaluated"""
+    side = rec.side(g)
+    try:
+        others = {n: current[n] for n in g.par_names if n != block}
+        side["probing"] = True
+        try:
+            fresh = g.target(**others)
+        finally:
+            side["probing"] = False
+        if np.ndim(pt) == 0:
+            pt = np.asarray(pt, dtype=float).reshape(1)       # scalar blocks (conjugate draws) as 1-vectors
+        # the conditional LAW is what the property speaks of: compare log-density DIFFERENCES between two points, so that an
+        # additive constant (how constants of the fixed variables are folded in) plays no role
+        pt = np.asarray(pt, dtype=float)
+        pt2 = pt + 0.125 * (np.abs(pt) + 1.0)          # stays inside a positive support
+        f1, f2 = (np.asarray(fresh.logd(q), dtype=float).reshape(-1)[0] for q in (pt, pt2))
+        h1, h2 = (np.asarray(held_target.logd(q), dtype=float).reshape(-1)[0] for q in (pt, pt2))
+        if not all(np.isfinite(v) for v in (f1, f2, h1, h2)):
+            rec.tgt_unknown = getattr(rec, "tgt_unknown", 0) + 1
+            return True
+        a, b = f2 - f1, h2 - h1
+        return bool(abs(a - b) <= 1e-8 * max(1.0, abs(a), abs(b), abs(f1), abs(h1)))
+    except Exception:
+        rec.tgt_unknown = getattr(rec, "tgt_unknown", 0) + 1      # e.g. implicit priors without a log-density: no verdict
+        return True
+
+
 def install_gibbs(rec):
     import cuqi
     from cuqi.experimental.mcmc import HybridGibbs, Sampler
@@ -77,6 +112,13 @@ def install_gibbs(rec):
     def mk_init(orig):
         def wrapper(self, *a, **k):
             rec.side(self)["constructing"] = True
+            # the step counts AS CONFIGURED by the caller (documented default: 1 for every block not listed), read before
+            # the constructor runs - it fills the caller's dict in place; what the sampler then does is compared with these
+            given = k.get("num_sampling_steps", a[2] if len(a) > 2 else None)
+            try:
+                given = dict(given) if given is not None else {}
+            except Exception:
+                given = None
             try:
                 orig(self, *a, **k)
             finally:
@@ -87,16 +129,23 @@ def install_gibbs(rec):
             rec.emit(self, {"e": "init", "order": list(self.par_names),
                             "kinds": {b: kind_of(self.samplers[b]) for b in self.par_names},
                             "classes": {b: type(self.samplers[b]).__name__ for b in self.par_names},
-                            "steps": {b: int(self.num_sampling_steps[b]) for b in self.par_names},
+                            "steps": {b: int(given.get(b, 1)) if given is not None else int(self.num_sampling_steps[b])
+                                      for b in self.par_names},
                             "vals": vals_of(self.current_samples, self.par_names)}, iface="HybridGibbs")
         return wrapper
     rec.patch(HybridGibbs, "__init__", mk_init)
 
     def mk_call(op):
         def mk(orig):
-            def wrapper(self, n, *a, **k):
-                rec.emit(self, {"e": "call", "op": op, "n": int(n)})
-                return orig(self, n, *a, **k)
+            def wrapper(self, *a, **k):
+                # the count may be passed by keyword (sample(Ns=..), warmup(Nb=..)): never change how a call binds
+                n = a[0] if a else k.get("Ns", k.get("Nb", -1))
+                try:
+                    n = int(n)
+                except Exception:
+                    n = -1
+                rec.emit(self, {"e": "call", "op": op, "n": n})
+                return orig(self, *a, **k)
             return wrapper
         return mk
     rec.patch(HybridGibbs, "sample", mk_call("sample"))
@@ -134,7 +183,7 @@ def install_gibbs(rec):
             ent = targets.get(id(self))
             if ent is not None and ent[0] is self and not args:
                 g = ent[1]
-                if not rec.side(g).get("constructing", False):
+                if not rec.side(g).get("constructing", False) and not rec.side(g).get("probing", False):
                     names = list(g.par_names)
                     if set(kwargs) <= set(names) and len(kwargs) == len(names) - 1:
                         rec.side(g)["curblock"] = [n for n in names if n not in kwargs][0]
@@ -157,9 +206,11 @@ def install_gibbs(rec):
                     ok = cache_ok(self)
                 except Exception:
                     ok = True          # facet could not be evaluated: never an alarm
+                tok = target_ok(rec, g, b, self.target, self.current_point, g.current_samples)
                 start = vid(self.current_point)
                 out = orig(self, *a, **k)
-                rec.emit(g, {"e": "block_step", "block": b, "start": start, "pid": vid(self.current_point), "cache_ok": bool(ok)})
+                rec.emit(g, {"e": "block_step", "block": b, "start": start, "pid": vid(self.current_point), "cache_ok": bool(ok),
+                             "tgt_ok": bool(tok)})
                 return out
             finally:
                 st["in_gstep"] = 0
@@ -187,6 +238,7 @@ def install_gibbs(rec):
     def mk_lstep(orig):
         def wrapper(self, current_samples):
             rec.emit(self, {"e": "sweep_begin"})
+            rec.side(self)["cur"] = current_samples          # updated in place by the sweep: the current values of all blocks
             prev, rec._gibbs_current_legacy = rec._gibbs_current_legacy, self
             try:
                 out = orig(self, current_samples)
@@ -216,11 +268,14 @@ def install_gibbs(rec):
                 return orig(self, x)
             rec._gibbs_current_legacy = None      # nested sample() calls inside step are not Gibbs-level events
             try:
+                blk = rec.side(g).get("curblock", "?")
+                cur = rec.side(g).get("cur")
+                tok = target_ok(rec, g, blk, self.target, x, cur) if cur is not None and blk in cur else True
                 start = vid(x)
                 out = orig(self, x)
             finally:
                 rec._gibbs_current_legacy = g
-            rec.emit(g, {"e": "block_step", "block": rec.side(g).get("curblock", "?"), "start": start, "pid": vid(out), "cache_ok": True})
+            rec.emit(g, {"e": "block_step", "block": blk, "start": start, "pid": vid(out), "cache_ok": True, "tgt_ok": bool(tok)})
             return out
         return wrapper
     rec.patch(LegacySampler, "step", mk_lsstep)
@@ -234,10 +289,16 @@ def install_gibbs(rec):
             def mk_cstep(orig):
                 def wrapper(self, x=None):
                     g = rec._gibbs_current_legacy
+                    tok = True
+                    if g is not None:
+                        blk = rec.side(g).get("curblock", "?")
+                        cur = rec.side(g).get("cur")
+                        if cur is not None and blk in cur:
+                            tok = target_ok(rec, g, blk, self.target, x if x is not None else cur[blk], cur)
                     out = orig(self, x)
                     if g is not None:
                         rec.emit(g, {"e": "block_step", "block": rec.side(g).get("curblock", "?"), "start": vid(x),
-                                     "pid": vid(out), "cache_ok": True})
+                                     "pid": vid(out), "cache_ok": True, "tgt_ok": bool(tok)})
                     return out
                 return wrapper
             rec.patch(cls, "step", mk_cstep)
